@@ -395,6 +395,10 @@ def run(ctx):
         u_ok = h(a) and h(b) and (a[2], a[3]) == (None, ("const", 16)) and (b[2], b[3]) == (("const", 16), None)
     ctx.ob("C19.d", ud.qual, u_ok, "udpid = sha256(id)[:16] xor sha256(id)[16:]", func=ud.qual, file=ud.module.rel, construct="udpid", detail={"term": show(ut)[:200]},
            fail=f"udpid derivation is `{show(ut)[:160]}`")
+    # both byte orders are tried: the first attempt's failure reaches `except AuthenticationError: continue` only if every way
+    # Device.authenticate can fail on the network (timeout, protocol error, bad reply) is an AuthenticationError - C06.d's obligation
+    from . import c06
+    ctx.import_rules(c06, "t6", only=("C06.d",))
     ctx.require_min("cloud_cache_stores", 1)
     ctx.require_min("post_sites", 1)
     ctx.require_min("token_returns", 1)
